@@ -54,6 +54,7 @@ func Run(conf core.Config) *core.Result {
 		"FACT.reuse: a matrix field of a factorization type that is resized with reuseAs*/ReuseAs* (which panics for a non-empty matrix of another size) is reset first on every path of the same function, or is reset by another method of the type",
 		"FACT.failstate: in a Factorize method the statement list that ends in `return false` first resets the receiver or stores into one of its fields",
 		"FACT.alias: a method that takes another value of its receiver's type assigns to no slice field of the receiver an expression rooted at that value (selectors and reslices only)",
+		"FACT.condpath: a method of a factorization type that rebuilds the receiver from another value of its type and defines cond on some path defines it on every path to a successful return when the receiver is not the argument",
 		"FACT.state: a method of a mat factorization type that takes another value of its own type and writes the receiver assigns every field of the type (directly or through a receiver method it calls)")
 	res.Configs = append(res.Configs, conf.String())
 	pkgs, err := core.Load(conf, "./mat")
@@ -64,6 +65,7 @@ func Run(conf core.Config) *core.Result {
 	pkg := pkgs[0]
 	normOrder(pkg, res)
 	state(pkg, res)
+	condPath(pkg, res)
 	condUnit(pkg, res)
 	condAfter(pkg, res)
 	deadLoop(pkg, res)
